@@ -297,6 +297,17 @@ func importPrinter(p *core.Program) *core.Func {
 			found = f
 		}
 	}
+	if found == nil {
+		// the printer merged into the file writer: the exported method of the file type that emits the constant
+		for _, f := range p.Funcs() {
+			if f.Decl == nil || f.Decl.Recv == nil || core.RelPkg(f.Pkg.PkgPath) != "pkg/gengo" || !f.Decl.Name.IsExported() {
+				continue
+			}
+			if importBlockLiteral(f) != nil && found == nil {
+				found = f
+			}
+		}
+	}
 	importPrinterCache[p] = found
 	return found
 }
@@ -444,4 +455,44 @@ func roleValue(p *core.Program, info *types.Info, e ast.Expr, role string) bool 
 	}
 	ret, ok := h.Body.List[0].(*ast.ReturnStmt)
 	return ok && len(ret.Results) == 1 && isRole(p, core.FieldOf(h.Info(), ret.Results[0]), role)
+}
+
+// importBlockLiteral: the string literal of f that spells `import (`, or nil.
+func importBlockLiteral(f *core.Func) *ast.BasicLit {
+	if f == nil || f.Body == nil {
+		return nil
+	}
+	info := f.Info()
+	var out *ast.BasicLit
+	ast.Inspect(f.Body, func(n ast.Node) bool {
+		if lit, ok := n.(*ast.BasicLit); ok && lit.Kind == token.STRING && out == nil {
+			if tv := info.Types[lit]; tv.Value != nil && tv.Value.Kind() == constant.String && strings.Contains(constant.StringVal(tv.Value), "import (") {
+				out = lit
+			}
+		}
+		return out == nil
+	})
+	return out
+}
+
+// importRegion: when the import block is printed by statements of f itself (no printer function of its own), the
+// top-level statement of f's body that contains the `import (` constant.
+func importRegion(p *core.Program, f *core.Func) ast.Stmt {
+	ip := importPrinter(p)
+	if ip == nil || f == nil || f.Body == nil {
+		return nil
+	}
+	if ip != f && ip != f.Origin {
+		return nil
+	}
+	lit := importBlockLiteral(f)
+	if lit == nil {
+		return nil
+	}
+	for _, st := range f.Body.List {
+		if st.Pos() <= lit.Pos() && lit.End() <= st.End() {
+			return st
+		}
+	}
+	return nil
 }
